@@ -117,6 +117,12 @@ var rangeKinds = []rangeKind{
 		scripts: map[string]string{"none": ""},
 		sorder:  []string{"none"},
 		after:   "xs"},
+	{name: "uint64", keyT: "uint64", valT: "", forms: []string{"k", "none"},
+		values:  map[string]string{"three": "uint64(3)", "huge": "uint64(1) << 63"}, // above MaxInt64: executions end by break or by fuel
+		vorder:  []string{"three", "huge"},
+		scripts: map[string]string{"none": ""},
+		sorder:  []string{"none"},
+		after:   "xs"},
 	{name: "nint", keyT: "Count", valT: "", forms: []string{"k", "none"},
 		values:  map[string]string{"three": "Count(3)", "zero": "Count(0)"},
 		vorder:  []string{"three", "zero"},
@@ -373,7 +379,7 @@ func rangePrograms(tier string, goInt bool) []rangeProg {
 }
 
 func isIntKind(name string) bool {
-	return name == "int" || name == "int64" || name == "uint8" || name == "nint"
+	return name == "int" || name == "int64" || name == "uint8" || name == "nint" || name == "uint64"
 }
 
 // rangeReductions: move one dimension to its baseline.
